@@ -139,7 +139,7 @@ def describe(case):
 # one case: drive the real class, judge with the model
 # --------------------------------------------------------------------------------------------------
 
-def check_case(bitfield_mod, case, success_clause="auto_placement_should_succeed"):
+def check_case(bitfield_mod, case, success_clause="auto_placement_should_succeed", max_assignments=MAX_ASSIGNMENTS):
     """-> (status, [(clause, why), ...], n_complete_assignments)"""
     BitField = bitfield_mod.BitField
     L = case["length"]
@@ -252,7 +252,8 @@ def check_case(bitfield_mod, case, success_clause="auto_placement_should_succeed
                 return need_width(i) + best
             total = sum(together(i) for i in range(n) if parents[i] is None)
             if total <= L:
-                bad.append((success_clause, "no field is explicitly positioned and the fields that can be present together need at most %d of %d bits, but assign_fields() raised ValueError(%s)" % (total, L, assign_error)))
+                wide = any(F[i]["length"] is None and max(given[i]) >> 32 for i in range(n))
+                bad.append((success_clause + ("_values_ge_2pow32" if wide else ""), "no field is explicitly positioned and the fields that can be present together need at most %d of %d bits, but assign_fields() raised ValueError(%s)" % (total, L, assign_error)))
         return status, bad, 0
     if conflict:
         bad.append(("overlap_or_overflow_not_rejected", conflict + ", yet every add_field and assign_fields succeeded"))
@@ -328,9 +329,9 @@ def check_case(bitfield_mod, case, success_clause="auto_placement_should_succeed
             for c in combo:
                 d.update(c)
             complete.append(d)
-        if len(complete) > MAX_ASSIGNMENTS:
+        if len(complete) > max_assignments:
             r = random.Random(len(complete) * 31 + L)
-            complete = r.sample(complete, MAX_ASSIGNMENTS)
+            complete = r.sample(complete, max_assignments)
         keys = []
         for A in complete:
             kw = dict((name[i], v) for i, v in A.items())
@@ -415,11 +416,11 @@ def run(tier="quick", seed=0):
     stats = {"ok": 0, "rejected_add": 0, "rejected_assign": 0, "error": 0}
     layers = {}
 
-    def go(case, layer, success_clause="auto_placement_should_succeed"):
+    def go(case, layer, success_clause="auto_placement_should_succeed", max_assignments=MAX_ASSIGNMENTS):
         nonlocal ev
         ev += 1
         layers[layer] = layers.get(layer, 0) + 1
-        status, bad, ncomplete = check_case(bitfield_mod, case, success_clause)
+        status, bad, ncomplete = check_case(bitfield_mod, case, success_clause, max_assignments)
         stats[status] += 1
         if (status == "ok" and ncomplete >= 2) or status != "ok":
             distinct.add(repr(case))
@@ -520,21 +521,26 @@ def run(tier="quick", seed=0):
                     fixed = [bool((ev >> i) & 1) for i in range(n)]
                     specs = [(widths[i], None) if fixed[i] else (None, None) for i in range(n)]
                     go(make_case(L, parents, specs, [(1 << w) - 1 for w in widths], reuse=bool(ev & 16), history="interleaved" if ev & 32 else "plain", style=ev % 8), "D%d" % n)
-    for L in (32, 64):      # "a few" long bit fields, filled to the last bit
+    for L in (32, 48, 64):      # "a few" long bit fields, filled to the last bit
         for parents, widths in (((None,), (L,)), ((None, None), (L // 2, L // 2)), ((None, None), (1, L - 1)),
                                 ((None, None, None), (L - 8, 4, 4)), ((None, None, None, None), (8, 8, 8, L - 24)),
                                 ((None, (0, 1)), (1, L - 1)), ((None, (0, 0), (0, 1)), (2, L - 2, L - 2)),
                                 ((None, (0, 1), (1, 0), (0, 0)), (1, 1, L - 2, L - 1))):
             go(make_case(L, parents, [(None, None)] * len(widths), [(1 << w) - 1 for w in widths]), "D_long")
 
-    # (E) extension beyond the 4-field bound, all-automatic only: every structure/order with 5 fields, widths drawn
-    n5 = structures(5)
-    for parents in n5:
-        for _ in range(4 if thorough else 1):
-            widths = [rng.choice((1, 1, 2)) for _ in range(5)]
+    # (E) extension beyond the 4-field bound, all-automatic only: every structure/order with 5 fields, top-level fields one
+    #     bit wide, every other field 1 or 2 bits wide, in the exactly-filled bit field (quick: a seeded third of the structures)
+    for parents in structures(5):
+        if not thorough and rng.random() >= 1 / 3.0:
+            continue
+        inner = [i for i in range(5) if parents[i] is not None]
+        for ws in itertools.product((1, 2), repeat=len(inner)):
+            widths = [1] * 5
+            for i, w in zip(inner, ws):
+                widths[i] = w
             need = fit_length(parents, widths)
-            go(make_case(need + rng.choice((0, 0, 1)), parents, [(None, None)] * 5, [(1 << w) - 1 for w in widths], reuse=bool(ev & 1)),
-               "E5", success_clause="auto_placement_should_succeed_5_fields")
+            go(make_case(need, parents, [(None, None)] * 5, [(1 << w) - 1 for w in widths], reuse=bool(ev & 1)),
+               "E5", success_clause="auto_placement_should_succeed_5_fields", max_assignments=8)
 
     viol = []
     for clause in sorted(found, key=lambda c: found[c][0][:2]):
